@@ -382,9 +382,9 @@ def same_up_to_dedent(g, m, dmax, hits):
 
 
 def f30_shape(src_bytes, g, m):
-    """True iff the source has a line `spaces CR (CR|space)*` that (1) is the last line of its pattern (end of input, or
-    followed by a line that is not a continuation line), (2) is indented less than every other continuation line of that
-    pattern, and (3) the grammar's tree and the parser's tree differ only in that some pattern is dedented more by the
+    """True iff the source has a run of lines `spaces CR (CR|space)*` that (1) ends its pattern (end of input, or
+    followed by a line that is not a continuation line), (2) contains a line indented less than every other continuation
+    line of that pattern, and (3) the grammar's tree and the parser's tree differ only in that some pattern is dedented more by the
     parser (by at most the difference of those indents)"""
     try:
         src = src_bytes.decode("utf-8")
@@ -393,19 +393,26 @@ def f30_shape(src_bytes, g, m):
     lines = [l for l in logical_lines(src) if l.strip(" ") != ""]
     headers = ("[", "*", ".")
     best = 0
-    for j, ln in enumerate(lines):
-        mt = re.fullmatch(r"( +)\r[\r ]*", ln)
-        if not mt:
+    cr_only = [re.fullmatch(r"( +)\r[\r ]*", ln) for ln in lines]
+    j = 0
+    while j < len(lines):
+        if not cr_only[j]:
+            j += 1
             continue
-        # (1) it is the last line of its pattern: what follows is not a continuation line
-        if j + 1 < len(lines):
-            nxt = lines[j + 1]
+        a = j
+        while j + 1 < len(lines) and cr_only[j + 1]:
+            j += 1
+        b = j                      # lines a..b: a maximal run of trimmable-only lines
+        j += 1
+        # (1) the run ends its pattern: what follows is not a continuation line
+        if b + 1 < len(lines):
+            nxt = lines[b + 1]
             if nxt.startswith(" ") and not nxt.lstrip(" ").startswith(headers + ("}",)):
                 continue
-        # (2) the other continuation lines of that pattern are indented more
-        k = len(mt.group(1))
+        # (2) the other continuation lines of that pattern are indented more than some line of the run
+        k = min(len(cr_only[t].group(1)) for t in range(a, b + 1))
         kept = []
-        for l in reversed(lines[:j]):
+        for l in reversed(lines[:a]):
             if not l.startswith(" ") or l.lstrip(" ").startswith(headers):
                 break
             kept.append(len(l) - len(l.lstrip(" ")))
